@@ -29,7 +29,9 @@ class SuggestModel:
         # the loop `for token_name in self.expected_tokens:`
         loop = None
         for n in ast.walk(self.fn):
-            if isinstance(n, ast.For) and norm(n.iter) == 'self.expected_tokens' and isinstance(n.target, ast.Name):
+            # ... over the expected tokens as they are, or over any rearrangement of them (sorted(...), list(...), reversed(...))
+            if isinstance(n, ast.For) and isinstance(n.target, ast.Name) and any(
+                    isinstance(x, ast.Attribute) and norm(x) == 'self.expected_tokens' for x in ast.walk(n.iter)) and loop is None:
                 loop = n
         if loop is None:
             raise AnalysisError('make_suggestion: loop over self.expected_tokens not found')
